@@ -162,7 +162,9 @@ func imageRunner(bin *authenticode.PECOFFBinary, signers []int, img []byte, own 
 	return func(op Op) string {
 		switch op.Kind {
 		case "Hash":
-			return digest(bin.Hash(crypto.SHA256))
+			// (half of the calls SHA-256, the others one of the algorithms the API also takes)
+			alg := []crypto.Hash{crypto.SHA256, crypto.SHA1, crypto.SHA256, crypto.SHA384, crypto.SHA256, crypto.SHA512, crypto.SHA256, crypto.SHA512_256}[op.Arg%8]
+			return digest(bin.Hash(alg))
 		case "Bytes":
 			return digest(bin.Bytes())
 		case "Open":
